@@ -394,6 +394,18 @@ fn big_cmp_shift(a: &[u32], b: &[u32], sh: u32) -> i32 {
     0
 }
 
+/// run-length encoding of the code points: [(cp, n); ...]
+fn crle(t: &str) -> String {
+    let mut runs: Vec<(u32, u64)> = vec![];
+    for ch in t.chars() {
+        match runs.last_mut() {
+            Some((c, n)) if *c == ch as u32 => *n += 1,
+            _ => runs.push((ch as u32, 1)),
+        }
+    }
+    clist(runs.iter().map(|(c, n)| format!("({c}, {n})")))
+}
+
 fn coq_case(c: &Case, pos: u64, o: &Obs) -> String {
     let tpl = match &c.tpl {
         Tpl::Bar(w, al) => format!(
@@ -417,7 +429,7 @@ fn coq_case(c: &Case, pos: u64, o: &Obs) -> String {
         pos,
         copt(c.len.map(|x| x.to_string())),
         o.frac.to_bits(),
-        cstr(&o.text)
+        crle(&o.text)
     )
 }
 
@@ -486,6 +498,7 @@ fn run_case(s: &mut Session, c: &Case) {
             let g = oracle(s, c, c.pos, &o);
             count_case(s, c, c.pos, &g);
             let nontrivial = g.as_ref().map_or(false, |g| g.cells > 0);
+            s.count("coq_cases");
             s.case(coq_case(c, c.pos, &o), desc, nontrivial);
         }
     }
@@ -522,8 +535,10 @@ fn sweep(s: &mut Session, c: &Case, positions: &[u64], sample: usize) {
                     prev = Some((p, g.filled));
                 }
                 s.count("sweep_observations");
-                if sample > 0 && k % sample == 0 {
+                let _ = k;
+                if sample > 0 && s.dist["sweep_observations"] % sample as u64 == 0 {
                     count_case(s, c, p, &g);
+                    s.count("coq_cases");
                     s.case(coq_case(c, p, &o), cp.desc(), g.as_ref().map_or(false, |g| g.cells > 0));
                 } else {
                     s.evaluations += 1;
@@ -660,7 +675,7 @@ fn main() {
         &a,
         "C13",
         header,
-        "(list (list N) * N * bar_tpl * N * option N * N * list N)%type",
+        "(list (list N) * N * bar_tpl * N * option N * N * list (N * N))%type",
         "bar_check",
     );
     s.rule = "a ProgressBar on a recording terminal, template [{bar}] / [{bar:N}] / [{bar:^N}] / [{bar:>N}] (N 0..=400 and u16 boundaries) or PRE{wide_bar}SUF (terminal width 1..=120, rest fitting / not fitting), progress_chars of 2..=10 distinct clusters all 1 or all 2 columns wide (ASCII, block elements, a combining sequence, CJK, emoji), length None/0/boundaries (1,2,3,7,10,100,253,1000,2^24-1,2^24,2^24+1,2^32+7,2^64-2,2^64-1)/random given to the constructor or by set_length, position by set_position at 0, the ends, cell boundaries k*len/cells-1/0/+1 and random, then force_draw(); the observed fraction() bits and the rendered line are compared with the model, the oracle checks the property on them; sweeps run ascending positions on one bar (monotonicity) and only every k-th observation is also a Coq case. non-trivial = the bar has at least one cell; distinct = distinct case text".into();
@@ -813,5 +828,12 @@ fn main() {
         let c = Case { chars: cs, tpl: Tpl::Bar(Some(w), 0), pos: 0, len: Some(l), len_by_ctor: true };
         sweep(&mut s, &c, &ps, sample);
     }
+    let coq = s.dist.get("coq_cases").copied().unwrap_or(0);
+    s.notes.push(format!(
+        "{} of the {} evaluations are compared with the Coq model (fraction() bits + every code point of the line); the remaining {} sweep observations are checked by the oracle only (property clauses + monotonicity along ascending positions)",
+        coq,
+        s.evaluations,
+        s.evaluations - coq
+    ));
     s.finish();
 }
